@@ -19,6 +19,9 @@ RULE = (
     "adjacent-in-call-order in one block, or the pre-state is not a basis state of the operands; distinct = "
     "(operation type, spread, representations, operand storages, layout hash)."
 )
+from pw_verif.props._machine import HISTORY_NOTE, SURVIVOR_NOTE  # noqa: E402,F401
+
+RULE += HISTORY_NOTE + " A third of the programs apply ONE composite Operation object repeatedly: to the same operands in another order, to other operands of the same kinds, with ladder operations in between that change the Fock operands' sizes."
 ASSUMPTIONS = ["reference self-tests passed", "controlled-swap is the textbook Fredkin gate", "beam splitter = exp(i eta (a+b + ab+)); ideal action computed at cut-off n1+n2+1 on both modes",
                "Expression operands: the library sizes a Fock factor as occupation+1, the reference builds the same number-diagonal factor at the dimension the library chose"]
 
